@@ -380,6 +380,9 @@ where
         W_FLOOR => cur.wrapping_floor(),
         W_ROUND => cur.wrapping_round(),
         W_RTE => cur.wrapping_round_ties_to_even(),
+        W_RTZ => cur.round_to_zero(),
+        W_INT => cur.int(),
+        W_FRAC => cur.frac(),
         W_BIN => match y & 7 {
             0 => cur.wrapping_add(b),
             1 => cur.wrapping_sub(b),
